@@ -98,3 +98,36 @@ Proof.
   split; [exact A|]. split; [exact (finish_nodup C H1 H2 H3 H4 t s reply Hnd Hin Hf)|exact B].
 Qed.
 Print Assumptions C16_successor_registered_once.
+
+(** the timer loops (with Python's remove-while-iterating semantics) keep the table duplicate-free and never add
+    an entry *)
+Theorem C16_timers_keep_table_exact : forall (C : ciface),
+  (forall s now, sa_cid C (fst (sa_check_retransmission C s now)) = sa_cid C s) ->
+  (forall s now, sa_cid C (fst (sa_check_dpd C s now)) = sa_cid C s) ->
+  (forall s now, sa_cid C (fst (sa_check_lifetime C s now)) = sa_cid C s) ->
+  forall (t : table C) (now : Z),
+  NoDup (cids C t) ->
+  NoDup (cids C (fst (fst (timers C t now)))) /\
+  (forall c, In c (cids C (fst (fst (timers C t now)))) -> In c (cids C t)).
+Proof. exact timers_table. Qed.
+Print Assumptions C16_timers_keep_table_exact.
+
+(** Every reachable table: over ANY sequence of events of the loop (datagrams, whatever they contain and whatever
+    the IkeSa does with them, interleaved with timer sweeps at any times) the table never holds an IKE_SA twice -
+    by induction over the run.  [fresh_run] is Python object identity: an IkeSa object created while an event is
+    handled (new responder, rekey successor) is not one that is already in the table. *)
+Theorem C16_table_exact_over_every_run : forall (C : ciface),
+  (forall s d s' r, sa_process C s d = PDone s' r -> sa_cid C s' = sa_cid C s) ->
+  (forall s d s' e, sa_process C s d = PRaised s' e -> sa_cid C s' = sa_cid C s) ->
+  (forall s, sa_cid C (sa_clear_successor C s) = sa_cid C s) ->
+  (forall s, sa_state C (sa_clear_successor C s) = sa_state C s) ->
+  (forall s, sa_successor C (sa_clear_successor C s) = None) ->
+  (forall s, sa_kernel_keys C (sa_clear_successor C s) = sa_kernel_keys C s) ->
+  (forall s, sa_cid C (sa_arm_cookie C s) = sa_cid C s) ->
+  (forall s now, sa_cid C (fst (sa_check_retransmission C s now)) = sa_cid C s) ->
+  (forall s now, sa_cid C (fst (sa_check_dpd C s now)) = sa_cid C s) ->
+  (forall s now, sa_cid C (fst (sa_check_lifetime C s now)) = sa_cid C s) ->
+  forall (es : list (cevent C)) (t : table C),
+  NoDup (cids C t) -> fresh_run C t es -> NoDup (cids C (fold_left (cstep C) es t)).
+Proof. exact run_table_nodup. Qed.
+Print Assumptions C16_table_exact_over_every_run.
